@@ -1,6 +1,9 @@
 //%include prelude/head.rs
 use aho_corasick::AhoCorasick;
 use regex::{Regex, RegexSet};
+use serde_yaml::{Mapping, Value as Yaml};
+
+pub type Result<T> = std::result::Result<T, Error>;
 
 // Real trait texts, compiled by rustc outside verus! (Verus rejects the Value <-> Object type/trait
 // cycle and `Box<dyn Iterator + '_>`); exposed to Verus through external_trait_specification.
@@ -42,6 +45,19 @@ verus! {
 //%item solver.rs Passthrough struct Passthrough
 //%item solver.rs impl_Passthrough impl Document for Passthrough
 //%item solver.rs solve_expression pub\(crate\) fn solve_expression
+//%item rule.rs Detection pub struct Detection
+//%item solver.rs solve pub fn solve\b
+//%item rule.rs Rule pub struct Rule
+
+//%include prelude/errors.rs
+//%include prelude/yaml.rs
+// The two methods of `impl Rule` that evaluate a rule, hosted in an impl block written here (the other methods
+// of the real impl do file and serde I/O and are not under contract).
+impl Rule {
+//%item rule.rs matches pub fn matches
+//%item rule.rs validate pub fn validate
+}
+
 //%item solver.rs match_all fn match_all
 //%item solver.rs match_of fn match_of
 //%item solver.rs search fn search
